@@ -296,7 +296,7 @@ func ParseContractFile(path, pkg string) (*ContractFile, error) {
 			cf.Consts = append(cf.Consts, parseParams(rest)...)
 			cur = nil
 		case "func", "interface", "lib":
-			m := funcHdrRe.FindStringSubmatch(rest)
+			m := parseFuncHeader(rest)
 			if m == nil {
 				return nil, fail("bad %s header: %q", kw, rest)
 			}
